@@ -781,9 +781,11 @@ func (k *Kernel) addPrevote(ctx context.Context, s *kState, req AddPrevoteReques
 
 	// END OF addPrecommit SYNCHRONIZATION.
 
-	// And if this was an accepted prevote for NextRound,
+	// And if any prevote was applied to NextRound,
 	// we might need to shift the view.
-	if res == AddVoteAccepted && vID == ViewIDNextRound {
+	// (A conflict on one block hash does not undo the updates applied for the others,
+	// and the caller's retry will find nothing left to add for those.)
+	if anyAdded && vID == ViewIDNextRound {
 		// TODO: this needs to also check NextHeight.
 		if err := k.checkPrevoteViewShift(ctx, s, vID); err != nil {
 			k.log.Warn("Error while checking view shift for prevotes into next round; kernel may be in bad state", "err", err)
@@ -882,10 +884,13 @@ func (k *Kernel) addPrecommit(ctx context.Context, s *kState, req AddPrecommitRe
 
 	// END OF addPrevote SYNCHRONIZATION.
 
-	if res != AddVoteAccepted {
+	if !anyAdded {
 		return
 	}
 
+	// A conflict on one block hash does not undo the updates applied for the others,
+	// and the caller's retry will find nothing left to add for those,
+	// so the applied part has to be evaluated now.
 	switch vID {
 	case ViewIDVoting:
 		if err := k.checkVotingPrecommitViewShift(ctx, s); err != nil {
